@@ -549,6 +549,8 @@ class Interp:
             raise Unsupported("truth value of a symbolic number in %s" % ast.unparse(node))
         if isinstance(v, SymCond):
             c = self.choose("branch:" + ast.unparse(node), [True, False])
+            if hasattr(self, "decisions"):
+                self.decisions.append((v.op, v.a, v.b, c))      # exact outcome (facts below forget strictness)
             fact = v.fact(c)
             if fact is not None:
                 self.facts.append(fact)
@@ -1042,6 +1044,13 @@ class Interp:
             return int(v) if n == "int" else v
         if n == "bool":
             return self.truth(args[0], node)
+        if n in ("all", "any"):
+            # (the elements were evaluated eagerly; for side-effect-free elements only the number of evaluations differs)
+            want = n == "any"
+            for x in self.as_iter(args[0]):
+                if self.truth(x, node) == want:
+                    return want
+            return not want
         if n == "isinstance":
             return True
         if n == "abs":
@@ -1232,7 +1241,7 @@ class SymCond:
         return None
 
 
-_BUILTINS = {"divmod", "round", "dict", "set", "len", "range", "list", "tuple", "enumerate", "zip", "reversed", "int", "float", "bool",
+_BUILTINS = {"divmod", "round", "dict", "set", "len", "range", "list", "tuple", "enumerate", "zip", "reversed", "int", "float", "bool", "all", "any",
              "isinstance", "abs", "min", "max", "sum", "print", "super"}
 
 
